@@ -22,6 +22,9 @@ FS_CFG = ("SPECIFICATION Spec\nCONSTANTS MaxParams = {p}\n MaxOrder = {o}\n MaxN
 SHAPES = [[[4, 3], [5]], [[3, 4, 2]], [[7, 2], [3, 3], [4]], [[2, 3, 2, 2], [6]], [[5, 5]], [[6, 2], [2, 2, 3]], [[9], [4, 4]], [[3, 7]],
           [[6, 10], [10]], [[8, 6]], [[4, 5, 3]], [[5, 8], [3, 8]],      # the last ones give slabs of several rows that are cut into column blocks
           # singleton dimensions (Linear(1, n).weight, 1x1 convolution kernels, broadcast scales): trailing, leading, in the middle
+          # equal shapes whose shards on one rank have equal lengths at different offsets (rank 1 of 3 holds the second half of one and the
+          # first half of the next)
+          [[6], [4, 3], [4, 3], [6]], [[4], [2, 3, 2], [2, 3, 2], [4]], [[3], [6, 2], [6, 2], [3], [2]],
           [[6, 1], [4]], [[4, 2, 1, 1], [3]], [[5, 1, 1]], [[1, 6], [3, 1], [2, 2]], [[3, 1, 4]], [[1], [7, 1]], [[], [5, 1], [3]]]
 
 
@@ -46,11 +49,14 @@ def make_task(rng, kind):
     t = {"kind": kind, "shapes": shapes, "S": S, "draw": draw, "masks": masks, "seed": rng.randrange(1 << 30), "align": rng.choice([1, 4])}
     # insertion order of param_to_metadata (nested FSDP units list the root unit's parameters first, model.parameters() does not)
     t["meta_order"] = rng.sample(range(len(shapes)), len(shapes)) if rng.random() < 0.5 else list(range(len(shapes)))
+    t["dup_fqn"] = rng.random() < 0.5
+    # the shard of a parameter is the same under every strategy that shards parameters at optimizer time
+    t["strategy"] = rng.choice(["FULL_SHARD", "FULL_SHARD", "SHARD_GRAD_OP", "HYBRID_SHARD", "_HYBRID_SHARD_ZERO2"])
     if kind == "hsdp":
         t["S"] = min(S, 3)
         t["R"] = rng.choice([1, 2, 2, 4]) if t["S"] <= 2 else rng.choice([1, 2])
         t["GS"] = rng.choice([d for d in (1, 2, 4) if t["R"] % d == 0])
-        t["comm"] = rng.choice(["fp32", "fp32", "bf16"])
+        t["comm"] = rng.choice(["fp32", "default", "bf16"])
         t["comm_params"] = rng.random() < 0.4
         if t["R"] > 1 and rng.random() < 0.4:
             rows = list(range(t["R"]))
